@@ -1275,9 +1275,9 @@ class CodeGenerator(NodeVisitor):
         self.enter_frame(loop_frame)
 
         self.writeline("_loop_vars = {}")
-        self.blockvisit(node.body, loop_frame)
         if node.else_:
             self.writeline(f"{iteration_indicator} = 0")
+        self.blockvisit(node.body, loop_frame)
         self.outdent()
         self.leave_frame(
             loop_frame, with_python_scope=node.recursive and not node.else_
